@@ -34,6 +34,10 @@ def run(ctx, rep):
     r3(prog, ev, rep)
     r4(ctx, prog, ev, rep)
     r5(prog, ev, rep)
+    from rules import c11
+    c11.shared_walk_rule(prog, ev, rep, "C02-R6",
+                         "array elements selected by a slice appear in the RFC's index order (ascending for positive, descending for negative "
+                         "steps): both walks emit exactly the RFC 9535 2.3.4.2.2 index sequence -- the region analysis of C11-R6, shared")
 
 
 def seq_of(ev, t, selfs, others):
@@ -226,6 +230,14 @@ def _partial_lookup(prog, call):
     return False
 
 
+def carries_nodes(call):
+    """does the iterator / collection this call works on mention document nodes or AST items in its type?"""
+    tys = list(call.get("gargs") or [])
+    if call.get("args"):
+        tys.append(T.strip(call["args"][0]).get("ty") or "")
+    return any(re.search(r"(^|[^\w:])T($|[^\w:])|Pointer<|Data<|State<|parser::model::", g) for g in tys)
+
+
 def r4(ctx, prog, ev, rep):
     rep.rule("C02-R4", "census: no order-changing call (rev, sort*, dedup*, reverse, rotate, swap, Hash*/BTree* collections, "
              "retain/drain/remove/pop/insert) in the evaluator; cardinality-changing iterator adaptors only in the filter "
@@ -236,12 +248,25 @@ def r4(ctx, prog, ev, rep):
     for lab, p, node, name in hits:
         if lab == "retain-drain" and ("String::" in name or "str" in name.split("::")[-2:][0]):
             continue
+        if lab == "rev" and not carries_nodes(node):
+            continue    # reversing a range of integers / characters: the index walk itself is decided by C02-R6 / C11-R6
         rep.bad("C02-R4", "%s|%s|%s" % (prog.owner_fn(p), lab, name.rsplit("::", 1)[1]), T.loc(node),
                 "`%s` (%s) in `%s` can change the order or multiplicity of the result list" % (name, lab, p))
     th, _ = census.scan_types(prog, bodies, r"std::collections::hash|alloc::collections::(btree|binary_heap)")
     for p, ty in th:
         rep.bad("C02-R4", "%s|type:%s" % (prog.owner_fn(p), ty[:50]), prog.loc_of(p), "unordered/sorted collection `%s` in the evaluator" % ty)
     rep.ok("C02-R4", "order-census", "-", "%d call sites in %d evaluator bodies" % (n, len(bodies)))
+    # the AST must list selectors / segments / operands as written: the same census over the AST builders
+    region, _ = prog.parser_region()
+    pbodies = sorted(p for p in region if not prog.is_expansion(p))
+    phits, pn = census.scan_calls(prog, pbodies, census.ORDER_CHANGING)
+    for lab, p, node, name in phits:
+        if lab == "retain-drain" and ("String::" in name or "str" in name.split("::")[-2:][0]):
+            continue
+        rep.bad("C02-R4", "%s|%s|%s" % (prog.owner_fn(p), lab, name.rsplit("::", 1)[1]), T.loc(node),
+                "`%s` (%s) in the AST builder `%s` can reorder, drop or merge the selectors / segments of the query as written "
+                "(`$[0,0]` must select the node twice)" % (name, lab, p))
+    rep.ok("C02-R4", "order-census-parser", "-", "%d call sites in %d AST-builder bodies" % (pn, len(pbodies)))
     # cardinality-changing adaptors
     allowed_owner = {prog.impl_method(Q, M + "Filter", "process"), prog.inherent_method(DATA, "flat_map"),
                      prog.find_fn("crate::query::test_function::custom") if "crate::query::test_function::custom" in prog.bodies else None}
